@@ -83,9 +83,10 @@ def ifexpr_fn(
     arg2: str = args[2] if len(args) >= 3 else ""
     cond: str = expr_fn(ctx, fn_name, [arg0], expander)
     try:
-        ret: int = int(cond)
+        # any non-zero value is true, 0.5 as well
+        ret = float(cond) != 0
     except ValueError:
-        ret = 0
+        ret = False
     if ret:
         return expander(arg1).strip()
     return expander(arg2).strip()
